@@ -57,6 +57,9 @@ def catalogue(kind):
     F.append(("unknown-device", new_msg(k, [vc], device="NOPE"), []))
     F.append(("unknown-property", new_msg(k, [vc], name="NOPE"), []))
     F.append(("unknown-element", new_msg(k, [valid_child(k, "ZZ", 3)[0]]), []))
+    for odd in ("a", "t", "Target", "TGT"):
+        # names that are no element names but collide with python attribute keys, the vector's name or label
+        F.append(("unknown-element-%s" % odd, new_msg(k, [valid_child(k, odd, 3)[0]]), []))
     F.append(("unknown-element-then-valid", new_msg(k, [valid_child(k, "ZZ", 3)[0], vc]), [("TGT", "A", vv)]))
     for other in ("text", "number", "switch", "blob"):
         if other != k or kind == "light":
@@ -69,7 +72,8 @@ def catalogue(kind):
     F.append(("number-text-huge-int", new_msg("number", ['<oneNumber name="A">%s</oneNumber>' % ("9" * 400)]), []))
     F.append(("number-text-huge-decimal", new_msg("number", ['<oneNumber name="A">%s.5</oneNumber>' % ("9" * 400)]), []))
     F.append(("number-text-huge-sexagesimal", new_msg("number", ['<oneNumber name="A">%s:30</oneNumber>' % ("9" * 400)]), []))
-    F.append(("base64-bad-padding", new_msg("blob", ['<oneBLOB name="A" size="3" format=".x">QUJD=</oneBLOB>']), []))
+    # python's lenient decoder reads 'QUJD=' as b"ABC": the element is validly named, the sent value may be taken
+    F.append(("base64-bad-padding", new_msg("blob", ['<oneBLOB name="A" size="3" format=".x">QUJD=</oneBLOB>']), [("TGT", "A", (b"ABC", ".x"))]))
     F.append(("base64-illegal-chars", new_msg("blob", ['<oneBLOB name="A" size="3" format=".x">@@@@</oneBLOB>']), []))
     F.append(("blob-size-wrong", new_msg("blob", ['<oneBLOB name="A" size="5" format=".x">%s</oneBLOB>' % b64(b"abc")]), [("TGT", "A", (b"abc", ".x"))]))
     F.append(("blob-size-non-numeric", new_msg("blob", ['<oneBLOB name="A" size="big" format=".x">%s</oneBLOB>' % b64(b"abc")]), [("TGT", "A", (b"abc", ".x"))]))
@@ -257,8 +261,26 @@ def run_session(variant, transport, faults, slots, glued=False):
                     if glued and xml and transport != "direct" and not fxml.startswith("@"):
                         prefix += fxml
                         delivered_faults += 1
-                    elif s.send(fxml) == "ok":
-                        delivered_faults += 1
+                    else:
+                        before = s.snapshot()
+                        if s.send(fxml) == "ok":
+                            delivered_faults += 1
+                        # immediately after the fault: only elements it validly names may differ (old or sent value)
+                        try:
+                            now = s.snapshot()
+                        except Exception as e:  # noqa
+                            now = None
+                            fails.append(("state-unreadable-after-fault", "transport=%s" % transport, "fault %s: %r" % (fid, e)))
+                        if now is not None:
+                            allow = {}
+                            for vn, en, val in fnamed:
+                                allow.setdefault((vn, en), []).append(val)
+                            for di, (b, a) in enumerate(zip(before, now)):
+                                for vn in b:
+                                    for en in b[vn]:
+                                        oks = [b[vn][en]] + (allow.get((vn, en), []) if di == 0 else [])
+                                        if not any(same(a[vn][en], o) for o in oks):
+                                            fails.append(("fault-changed-state", "transport=%s" % transport, "fault %s: device %d %s.%s became %r (was %r)" % (fid, di, vn, en, short(a[vn][en]), short(b[vn][en]))))
                     named += fnamed
             if xml:
                 mark_y = len(s.output("Y"))
